@@ -97,8 +97,10 @@ def cgame_q(g):
 
 
 def exact_vs_float(ctx, recs):
-    """the model on EXACT rationals (instance Q, the one the numeric theorems are about) against the implementation's
-    binary64 probabilities: every state within 1e-9. Measures the effect of rounding the theorems do not cover."""
+    """the model on EXACT rationals (instance Q, the one the numeric theorems are about), run for exactly as many sweeps
+    as the implementation took, against the implementation's binary64 probabilities: every state within 1e-9.
+    Measures the effect of rounding the theorems do not cover (the stopping decision itself is not compared: exact
+    and rounded arithmetic may legitimately stop one sweep apart)."""
     terms, meta = [], []
     budget = 60 if ctx.quick else 600
     for r in recs:
@@ -120,7 +122,7 @@ def exact_vs_float(ctx, recs):
     ctx.notes.append("instance Q (exact rationals) vs implementation (binary64): %d games, %d with a state differing by more than 1e-9"
                      % (len(terms), len(bad)))
     for b in bad:
-        ctx.corr_break("exact-rational model and binary64 implementation differ by more than 1e-9 (or need a different number of sweeps)",
+        ctx.corr_break("exact-rational model and binary64 implementation differ by more than 1e-9 after the same number of sweeps",
                        meta[b].inp())
     for e in errs:
         ctx.harness_errors.append("coqc failed on %s: %s" % (e[0], e[2][-600:]))
